@@ -320,8 +320,16 @@ class Receiver:
                   (naturalsize(self.xfersize),
                    repr(os.path.basename(self.abs_destname))))
         self._ask_permission()
+        # never write through an existing file: "<name>.tmp" may well be
+        # something of the user's own
         tmp_destname = self.abs_destname + ".tmp"
-        return open(tmp_destname, "wb")
+        attempt = 0
+        while True:
+            try:
+                return open(tmp_destname, "xb")
+            except FileExistsError:
+                attempt += 1
+                tmp_destname = "%s.%d.tmp" % (self.abs_destname, attempt)
 
     def _handle_directory(self, them_d):
         file_data = them_d["directory"]
